@@ -114,7 +114,7 @@ theorem substitution_never_returned {bs : Bytes} {tbl : Tbl} {raw : Bytes} {m : 
       subst hz
       rw [List.append_assoc] at he2'
       have hU := List.append_cancel_left he2'
-      simp only [List.cons_append, List.nil_append, List.append_nil] at hU
+      simp only [List.cons_append, List.nil_append] at hU
       -- a' ++ y :: b = [49,48,61,e1,e2,e3,1] after dropping z … compare with T
       have hz : z :: (a' ++ y :: b) = [1, 49, 48, 61, e1, e2, e3, 1] := by simpa [SOH] using hU
       cases a' with
@@ -148,8 +148,13 @@ theorem substitution_never_returned {bs : Bytes} {tbl : Tbl} {raw : Bytes} {m : 
       simp only [List.cons_append, List.nil_append] at hU
       -- a' ++ y :: b = z :: [1,49,48,61,e1,e2,e3] and T = [1,49,48,61,d1,d2,d3,1]
       rw [hU] at hham
-      simp only [hamming, SOH] at hham
-      split at hham <;> simp at hham
+      have h2 : 2 ≤ hamming ([1, 49, 48, 61, d1, d2, d3] ++ [SOH]) [z, 1, 49, 48, 61, e1, e2, e3] := by
+        simp only [SOH, List.cons_append, List.nil_append, hamming]
+        have e1' : (if (49 : Nat) = 1 then 0 else 1) = 1 := by decide
+        have e2' : (if (48 : Nat) = 49 then 0 else 1) = 1 := by decide
+        rw [e1', e2']
+        omega
+      omega
     · obtain ⟨hpp, hTT⟩ := List.append_inj' he2' (by simpa using hlen)
       subst hpp
       obtain ⟨q1, q2, q3⟩ := same_pre_same_digits hp hp2
